@@ -1,14 +1,24 @@
 (** C22 — Modality and VOI LUT outputs match the PS3.3 formulas.
-    Statements only; proofs are in Proofs/LutP.v (index logic) and
-    Proofs/LutFloatP.v (binary64 arithmetic, Flocq). *)
-From Coq Require Import Floats.
-From DicomV Require Import Base.Prelude Model.Lut Spec.Ps33Lut Proofs.LutP.
+    Statements only. Proofs: Proofs/LutP.v (index logic), Proofs/LutFloatP.v
+    (binary64 arithmetic through Flocq), Proofs/LutEntryP.v (LUT entries).
 
-(** *** Index logic (integer part), all LUT sizes.
-    Whatever function [f] is tabulated and whatever the output type: when the
+    Reading guide. [new_with_fn bits signed f t] is [Lut::new_with_fn]
+    (output type [t]); [lut_get] is [Lut::get]; [stored_value bits signed raw]
+    (Spec/Ps33Lut.v) is the pixel value denoted by a raw sample: the low [bits]
+    bits, two's complement when [signed]. f64 values are Coq primitive floats;
+    [fR x] is the real value of a finite float, [ffin x] says x is finite.
+    [F_rescale], [F_linear], [F_linear_exact], [F_sigmoid] are the PS3.3
+    formulas evaluated in binary64 in the standard's operation order. *)
+From Coq Require Import Reals Floats ZArith.
+From Flocq Require Import Core.Core.
+From DicomV Require Import Base.Prelude Model.Lut Spec.Ps33Lut Proofs.LutP Proofs.LutFloatP Proofs.LutEntryP.
+
+(** * 1. Index logic (integers), all LUT sizes *)
+
+(** Whatever function [f] is tabulated and whatever the output type: when the
     table can be built, [get] on ANY raw sample (garbage above the high bit
-    included) returns the entry computed from the pixel value that the low
-    [bits] bits denote, read as two's complement when [signed]. *)
+    included) returns the entry computed from table index [raw land mask], and
+    that index denotes the stored pixel value. *)
 Theorem C22_index_general : forall bits signed f t l s,
   new_with_fn bits signed f t = Ok l ->
   cast t (f (x_of_index bits signed (N.land s (lut_size bits - 1)))) = Some (lut_get l s)
@@ -20,17 +30,14 @@ Proof.
   split; [assumption | now apply index_value_stored].
 Qed.
 
-(** Bits stored 1 to 16 (complete sweep of the f64 conversions `i as f64 - size as f64`):
-    the entry is the tabulated function applied to the stored pixel value itself. *)
+(** Bits stored 1 to 16 (complete sweep of the conversions `i as f64 - size as f64`):
+    the entry is the tabulated function applied to the stored pixel value itself,
+    converted to the output type. *)
 Theorem C22_index : forall bits signed f t l s,
   (1 <= bits <= 16)%N ->
   new_with_fn bits signed f t = Ok l ->
   cast t (f (z2f (stored_value bits signed s))) = Some (lut_get l s).
-Proof.
-  intros bits signed f t l s Hb H.
-  rewrite <- (index_value_stored bits signed s) by lia.
-  rewrite <- x_of_index_exact; [now apply new_with_fn_get | exact Hb | apply land_mask_lt].
-Qed.
+Proof. exact C22_index_lemma. Qed.
 
 (** Construction fails with CreateLutError only if some pixel value's output does
     not fit the output type, and panics exactly for bits_stored 0 or above 32. *)
@@ -43,19 +50,234 @@ Theorem C22_panic_iff : forall bits signed f t,
   (exists w, new_with_fn bits signed f t = Panic w) <-> (bits = 0 \/ 32 < bits)%N.
 Proof. exact new_with_fn_panic. Qed.
 
-(** Non-vacuity: a signed 5-bit modality LUT exists; raw 0xFF reads as -1. *)
-Example C22_nonvacuous :
+(** * 2. The entries are the binary64 evaluation of the PS3.3 formulas *)
+
+(** Modality LUT: entry = cast (fl (fl (slope * x) + intercept)). *)
+Theorem C22_rescale_exact : forall bits signed r t l s,
+  (1 <= bits <= 16)%N ->
+  new_rescale bits signed r t = Ok l ->
+  cast t (F_rescale (slope r) (intercept r) (z2f (stored_value bits signed s))) = Some (lut_get l s).
+Proof. intros bits signed r t l s Hb H. exact (C22_index_lemma bits signed _ t l s Hb H). Qed.
+
+(** the VOI function of a window level transform, per the standard *)
+Definition F_window (fexp : pfloat -> pfloat) (voi : wl_transform) (v ymax : pfloat) : pfloat :=
+  match wl_fun voi with
+  | Linear => F_linear v (wl_center voi) (wl_width voi) ymax
+  | LinearExact => F_linear_exact v (wl_center voi) (wl_width voi) ymax
+  | Sigmoid => F_sigmoid fexp v (wl_center voi) (wl_width voi) ymax
+  end.
+
+Theorem C22_window_exact : forall fexp bits signed r voi t l s,
+  (1 <= bits <= 16)%N ->
+  new_rescale_and_window fexp bits signed r voi t = Ok l ->
+  cast t (F_window fexp voi (F_rescale (slope r) (intercept r) (z2f (stored_value bits signed s)))
+                   (y_max_of_bits bits)) = Some (lut_get l s).
+Proof.
+  intros fexp bits signed r voi t l s Hb H.
+  rewrite <- (C22_index_lemma bits signed _ t l s Hb H).
+  unfold F_window, wl_apply. destruct (wl_fun voi); reflexivity.
+Qed.
+
+(** Width clamping of [WindowLevelTransform::new]: a NaN width or a width below 1 becomes 1
+    (LINEAR), and with width 1 the function is the step at c - 0.5 of PS3.3. *)
+Theorem C22_width_clamp_linear : forall w,
+  PrimFloat.is_nan (width w) = true \/ (width w <? 1)%float = true ->
+  wl_width (wl_new Linear w) = 1%float.
+Proof. intros w H. unfold wl_new; cbn [wl_width]. now apply fmax_clamp. Qed.
+
+Theorem C22_width1_step : forall v wc ymax, ffin v -> ffin (wc - 0.5)%float ->
+  window_level_linear v 1 wc ymax = if Rle_bool (fR v) (fR (wc - 0.5)%float) then 0%float else ymax.
+Proof. exact linear_width1_step. Qed.
+
+(** * 3. Output range and monotonicity (LINEAR and LINEAR_EXACT)
+
+    Hypothesis [voi_okb voi = true] (decidable, exact arithmetic): the computed window
+    bounds c - 0.5 -/+ (w-1)/2 (resp. c -/+ w/2) are finite and not rounded AWAY from the
+    window, and the computed half width is at most half the width. It holds whenever these
+    few operations are exact (integer / dyadic centres and widths of moderate size), for
+    every degenerate width, and it is exactly what fails in the known finding
+    WindowBoundsRoundedOutward ([C22_window_range_refuted]). *)
+
+(** f64 level: for every finite input the output is finite and within [0, y_max] ... *)
+Theorem C22_window_range_f64 : forall fexp voi ymax v,
+  voi_okb voi = true -> ffin ymax -> (0 <= fR ymax)%R -> ffin v ->
+  ffin (wl_apply fexp voi v ymax) /\ (0 <= fR (wl_apply fexp voi v ymax) <= fR ymax)%R.
+Proof. intros fexp voi ymax v OK Fy Py Fv. exact (window_range fexp voi ymax (voi_okb_sound _ OK) Fy Py v Fv). Qed.
+
+(** ... and never decreases when the input increases. *)
+Theorem C22_window_monotone_f64 : forall fexp voi ymax v1 v2,
+  voi_okb voi = true -> ffin ymax -> (0 <= fR ymax)%R -> ffin v1 -> ffin v2 -> (fR v1 <= fR v2)%R ->
+  (fR (wl_apply fexp voi v1 ymax) <= fR (wl_apply fexp voi v2 ymax))%R.
+Proof. intros fexp voi ymax v1 v2 OK Fy Py. exact (window_mono fexp voi ymax (voi_okb_sound _ OK) Fy Py v1 v2). Qed.
+
+(** LUT entries, rescale + window: every entry is within [0, y_max] ... *)
+Theorem C22_window_range : forall fexp bits signed r voi t l s,
+  (1 <= bits <= 16)%N -> voi_okb voi = true ->
+  new_rescale_and_window fexp bits signed r voi t = Ok l ->
+  ffin (rescale_apply r (z2f (stored_value bits signed s))) ->
+  (0 <= lut_get l s <= y_max_Z bits)%Z.
+Proof. intros fexp bits signed r voi t l s Hb OK. exact (rw_range fexp bits signed r voi t l Hb OK s). Qed.
+
+(** ... and for a non-negative slope the output never decreases as the stored value increases. *)
+Theorem C22_monotone : forall fexp bits signed r voi t l s1 s2,
+  (1 <= bits <= 16)%N -> voi_okb voi = true ->
+  new_rescale_and_window fexp bits signed r voi t = Ok l ->
+  (0 <= fR (slope r))%R ->
+  ffin (rescale_apply r (z2f (stored_value bits signed s1))) ->
+  ffin (rescale_apply r (z2f (stored_value bits signed s2))) ->
+  (stored_value bits signed s1 <= stored_value bits signed s2)%Z ->
+  (lut_get l s1 <= lut_get l s2)%Z.
+Proof. intros fexp bits signed r voi t l s1 s2 Hb OK. exact (rw_mono fexp bits signed r voi t l Hb OK s1 s2). Qed.
+
+(** the same for the other window constructors *)
+Theorem C22_window_only : forall fexp bits signed voi t l,
+  (1 <= bits <= 16)%N -> voi_okb voi = true ->
+  new_window fexp bits signed voi t = Ok l ->
+  (forall s, (0 <= lut_get l s <= y_max_Z bits)%Z) /\
+  (forall s1 s2, (stored_value bits signed s1 <= stored_value bits signed s2)%Z -> (lut_get l s1 <= lut_get l s2)%Z).
+Proof.
+  intros fexp bits signed voi t l Hb OK Hl. split.
+  - intros s. exact (w_range fexp bits signed voi t l Hb OK s Hl).
+  - intros s1 s2. exact (w_mono fexp bits signed voi t l Hb OK s1 s2 Hl).
+Qed.
+
+Theorem C22_window_8bit : forall fexp bits signed r voi l,
+  (1 <= bits <= 16)%N -> voi_okb voi = true ->
+  new_rescale_and_window_8bit fexp bits signed r voi = Ok l ->
+  (forall s, ffin (rescale_apply r (z2f (stored_value bits signed s))) -> (0 <= lut_get l s <= 255)%Z) /\
+  (forall s1 s2, (0 <= fR (slope r))%R ->
+     ffin (rescale_apply r (z2f (stored_value bits signed s1))) ->
+     ffin (rescale_apply r (z2f (stored_value bits signed s2))) ->
+     (stored_value bits signed s1 <= stored_value bits signed s2)%Z -> (lut_get l s1 <= lut_get l s2)%Z).
+Proof.
+  intros fexp bits signed r voi l Hb OK Hl. split.
+  - intros s. exact (rw8_range fexp bits signed r voi l Hb OK s Hl).
+  - intros s1 s2. exact (rw8_mono fexp bits signed r voi l Hb OK s1 s2 Hl).
+Qed.
+
+Theorem C22_window_only_8bit : forall fexp bits signed voi l,
+  (1 <= bits <= 16)%N -> voi_okb voi = true ->
+  new_window_8bit fexp bits signed voi = Ok l ->
+  (forall s, (0 <= lut_get l s <= 255)%Z) /\
+  (forall s1 s2, (stored_value bits signed s1 <= stored_value bits signed s2)%Z -> (lut_get l s1 <= lut_get l s2)%Z).
+Proof.
+  intros fexp bits signed voi l Hb OK Hl. split.
+  - intros s. exact (w8_range fexp bits signed voi l Hb OK s Hl).
+  - intros s1 s2. exact (w8_mono fexp bits signed voi l Hb OK s1 s2 Hl).
+Qed.
+
+(** modality LUT alone *)
+Theorem C22_rescale_monotone : forall bits signed r t l s1 s2,
+  (1 <= bits <= 16)%N ->
+  new_rescale bits signed r t = Ok l -> (0 <= fR (slope r))%R ->
+  (stored_value bits signed s1 <= stored_value bits signed s2)%Z ->
+  (lut_get l s1 <= lut_get l s2)%Z.
+Proof. intros bits signed r t l s1 s2 Hb. exact (rescale_entries_mono bits signed r t l Hb s1 s2). Qed.
+
+(** the finiteness hypotheses above hold for every stored value when |slope|, |intercept| <= 2^1000 *)
+Theorem C22_rescale_finite : forall bits signed r s, (1 <= bits <= 16)%N ->
+  ffin (slope r) -> ffin (intercept r) ->
+  (Rabs (fR (slope r)) <= bpow radix2 1000)%R -> (Rabs (fR (intercept r)) <= bpow radix2 1000)%R ->
+  ffin (rescale_apply r (z2f (stored_value bits signed s))).
+Proof. exact rescale_finite_stored. Qed.
+
+(** Without the hypothesis on the window bounds the range statement is FALSE (known finding
+    WindowBoundsRoundedOutward): slope 1, intercept 2^53, LINEAR centre 2^53+2, width 3, an
+    8-bit LUT into u16: the bound c - 0.5 + (w-1)/2 = 2^53+3 rounds up to 2^53+4, and the
+    values in between map to 382 > 255. All parameters are finite and the width is >= 1. *)
+Definition refuting_voi := wl_new Linear {| width := 3; center := 9007199254740994 |}.
+Definition refuting_rescale := {| slope := 1; intercept := 9007199254740992 |}.
+Theorem C22_window_range_refuted :
+  voi_okb refuting_voi = false /\
+  exists l, new_rescale_and_window no_exp 8 false refuting_rescale refuting_voi TU16 = Ok l /\
+            lut_get l 3 = 382%Z /\ y_max_Z 8 = 255%Z.
+Proof.
+  split; [vm_compute; reflexivity|].
+  destruct (new_rescale_and_window no_exp 8 false refuting_rescale refuting_voi TU16) as [l| |] eqn:E;
+    [|vm_compute in E; discriminate..].
+  exists l. split; [reflexivity|]. split; [|reflexivity].
+  vm_compute in E. inversion E. vm_compute. reflexivity.
+Qed.
+
+(** * 4. SIGMOID (partial): range and monotonicity only, [exp] abstract.
+    Assumed of f64::exp on finite arguments: the result is +infinity or finite and >= 0; it is
+    monotone, also across the overflow threshold. The closeness of the output to the real
+    formula is NOT stated. *)
+Theorem C22_sigmoid_partial : forall fexp : pfloat -> pfloat,
+  (forall a, ffin a -> fexp a = infinity \/ (ffin (fexp a) /\ (0 <= fR (fexp a))%R)) ->
+  (forall a b, ffin a -> ffin b -> ffin (fexp a) -> ffin (fexp b) -> (fR a <= fR b)%R -> (fR (fexp a) <= fR (fexp b))%R) ->
+  (forall a b, ffin a -> ffin b -> (fR a <= fR b)%R -> fexp a = infinity -> fexp b = infinity) ->
+  forall ww wc ymax, ffin ymax -> (0 <= fR ymax)%R ->
+  let arg v := (-4 * (v - wc) / ww)%float in
+  let ok v := ffin (arg v) /\ (ffin (fexp (arg v)) -> ffin (1 + fexp (arg v))%float) in
+  (forall v, ok v ->
+     ffin (window_level_sigmoid fexp v ww wc ymax) /\
+     (0 <= fR (window_level_sigmoid fexp v ww wc ymax) <= fR ymax)%R) /\
+  (forall v1 v2, ffin v1 -> ffin v2 -> ffin wc -> (0 < fR ww)%R -> ok v1 -> ok v2 -> (fR v1 <= fR v2)%R ->
+     (fR (window_level_sigmoid fexp v1 ww wc ymax) <= fR (window_level_sigmoid fexp v2 ww wc ymax))%R).
+Proof.
+  intros fexp H1 H2 H3 ww wc ymax Fy Py arg ok. split.
+  - intros v [Ft Fd]. exact (sigmoid_range fexp H1 ww wc ymax Fy Py v Ft Fd).
+  - intros v1 v2 F1 F2 Fc Hw [Ft1 Fd1] [Ft2 Fd2] Hv.
+    exact (sigmoid_mono fexp H1 H2 H3 ww wc ymax Fy Py v1 v2 F1 F2 Fc Hw Ft1 Ft2 Fd1 Fd2 Hv).
+Qed.
+
+(** * Non-vacuity *)
+Example C22_nonvacuous_index :
   match new_rescale 5 true {| slope := 2; intercept := 10 |} TI16 with
   | Ok l => lut_get l 255 = 8%Z /\ stored_value 5 true 255 = (-1)%Z
   | _ => False
   end.
 Proof. vm_compute. split; reflexivity. Qed.
 
+Example C22_nonvacuous_window :
+  voi_okb (wl_new Linear {| width := 4096; center := 2048 |}) = true /\
+  voi_okb (wl_new LinearExact {| width := 300; center := 50 |}) = true /\
+  voi_okb (wl_new Linear {| width := -5; center := 128 |}) = true /\
+  match new_rescale_and_window no_exp 12 false {| slope := 1; intercept := -1024 |}
+          (wl_new Linear {| width := 300; center := 50 |}) TU16 with
+  | Ok l => lut_get l 824 = 0%Z /\ lut_get l 1224 = 65535%Z /\ lut_get l (4096 + 1074) = lut_get l 1074
+  | _ => False
+  end.
+Proof. vm_compute. repeat split; reflexivity. Qed.
+
 Check C22_index : forall bits signed f t l s,
   (1 <= bits <= 16)%N ->
   new_with_fn bits signed f t = Ok l ->
   cast t (f (z2f (stored_value bits signed s))) = Some (lut_get l s).
+Check C22_rescale_exact : forall bits signed r t l s,
+  (1 <= bits <= 16)%N ->
+  new_rescale bits signed r t = Ok l ->
+  cast t (F_rescale (slope r) (intercept r) (z2f (stored_value bits signed s))) = Some (lut_get l s).
+Check C22_window_range : forall fexp bits signed r voi t l s,
+  (1 <= bits <= 16)%N -> voi_okb voi = true ->
+  new_rescale_and_window fexp bits signed r voi t = Ok l ->
+  ffin (rescale_apply r (z2f (stored_value bits signed s))) ->
+  (0 <= lut_get l s <= y_max_Z bits)%Z.
+Check C22_monotone : forall fexp bits signed r voi t l s1 s2,
+  (1 <= bits <= 16)%N -> voi_okb voi = true ->
+  new_rescale_and_window fexp bits signed r voi t = Ok l ->
+  (0 <= fR (slope r))%R ->
+  ffin (rescale_apply r (z2f (stored_value bits signed s1))) ->
+  ffin (rescale_apply r (z2f (stored_value bits signed s2))) ->
+  (stored_value bits signed s1 <= stored_value bits signed s2)%Z ->
+  (lut_get l s1 <= lut_get l s2)%Z.
 Print Assumptions C22_index_general.
 Print Assumptions C22_index.
 Print Assumptions C22_create_error.
 Print Assumptions C22_panic_iff.
+Print Assumptions C22_rescale_exact.
+Print Assumptions C22_window_exact.
+Print Assumptions C22_width_clamp_linear.
+Print Assumptions C22_width1_step.
+Print Assumptions C22_window_range_f64.
+Print Assumptions C22_window_monotone_f64.
+Print Assumptions C22_window_range.
+Print Assumptions C22_monotone.
+Print Assumptions C22_window_only.
+Print Assumptions C22_window_8bit.
+Print Assumptions C22_window_only_8bit.
+Print Assumptions C22_rescale_monotone.
+Print Assumptions C22_rescale_finite.
+Print Assumptions C22_window_range_refuted.
+Print Assumptions C22_sigmoid_partial.
